@@ -463,7 +463,7 @@ fn check_room_member_knock<E: Event>(
     // Since v10, if the join_rule is anything other than knock or knock_restricted,
     // reject.
     if join_rule != JoinRule::Knock
-        && (rules.knock_restricted_join_rule && !matches!(join_rule, JoinRule::KnockRestricted))
+        && !(rules.knock_restricted_join_rule && matches!(join_rule, JoinRule::KnockRestricted))
     {
         return Err(
             "join rule is not set to knock or knock_restricted, knocking is not allowed".to_owned()
